@@ -5,8 +5,10 @@ Transcription of the pure-Python stream deserializer (`sexp_from_stream`, `_op_r
 * The stream `f` is the unread remainder `inp`; `f.read(n)` returns `inp.take n` (possibly shorter).
 * `op_stack` / `val_stack` are lists with the top at the head; `list.pop()` on an empty list is an
   explicit `IndexError` outcome.
-* The code is transcribed **as it is**: `_atom_from_stream` counts the leading one-bits of the first
-  byte and reads that many size bytes — there is no check that the count is at most 6 (finding H).
+* `_atom_from_stream` counts the leading one-bits of the first byte and rejects a count above 6
+  (`if bit_count > 6: raise ValueError("bad encoding")`, added by the repair of finding H, /repo
+  commit 61f724c; before it a 7-byte size prefix was accepted — the old transcription and its
+  witness are kept in `ClvmProofs/Lemmas/PyDe.lean`, section "historical").
 -/
 import ClvmModel.Py.Ser
 
@@ -31,6 +33,8 @@ def atomFromStream (inp : Bytes) (b : Nat) : Except PyErr (Nat × Tree) :=
   else if b ≤ Gen.pyMaxSingleByte then .ok (0, .atom [UInt8.ofNat b])
   else
     let (bitCount, b') := stripLoop 9 b 0x80 0
+    if bitCount > 6 then .error (.valueError "bad encoding")
+    else
     let more := if bitCount > 1 then inp.take (bitCount - 1) else []
     if bitCount > 1 ∧ more.length ≠ bitCount - 1 then .error (.valueError "bad encoding")
     else
